@@ -118,10 +118,15 @@ func Stop() {
 				}
 			}
 		}()
-		globalArchiver.Client.WaitGroup.Wait()
+		// With --proxy only the proxied client exists
+		if globalArchiver.Client != nil {
+			globalArchiver.Client.WaitGroup.Wait()
+		}
 		stopLocalWatcher <- struct{}{}
 		logger.Debug("WARC writing finished")
-		globalArchiver.Client.Close()
+		if globalArchiver.Client != nil {
+			globalArchiver.Client.Close()
+		}
 		if globalArchiver.ClientWithProxy != nil {
 			globalArchiver.ClientWithProxy.WaitGroup.Wait()
 			globalArchiver.ClientWithProxy.Close()
